@@ -22,6 +22,7 @@ def list_packages(project, root, filename):
 
 def assist(project, source, position, filename=None, debug=False):
     source = Source(source, filename, position)
+    filename = source.filename
     ctx = EvalCtx(project)
     ln, col = position
     line = source.lines[ln - 1][:col]
@@ -97,6 +98,7 @@ def _name_loc(name, marked_scope=None, position=None):
 
 def location(project, source, position, filename=None, debug=False):
     source = Source(source, filename, position)
+    filename = source.filename
 
     debug and print_dump(source.tree)
     scope = extract_scope(source, project)
